@@ -165,6 +165,11 @@ pub struct AdvReader {
     seek_to: Option<u64>,
     /// sizes actually transferred by successive Ready polls (for diagnostics)
     pub transfers: Arc<Mutex<Vec<usize>>>,
+    /// explicit script for `AsyncSeek::poll_complete`: while `Some`, every poll_complete call
+    /// (with or without a seek in flight) takes the next event, `true` = Pending, exhausted = Ready;
+    /// the poll schedule is then not consulted for seeks.  The handle is shared so that a test can
+    /// load a script right before one operation.
+    pub seek_events: Option<Arc<Mutex<std::collections::VecDeque<bool>>>>,
 }
 
 impl AdvReader {
@@ -175,7 +180,15 @@ impl AdvReader {
             sched,
             seek_to: None,
             transfers: Arc::new(Mutex::new(Vec::new())),
+            seek_events: None,
         }
+    }
+    /// Source whose poll_complete calls follow an explicit, shared event queue.
+    pub fn with_seek_events(data: Vec<u8>, sched: Sched) -> (Self, Arc<Mutex<std::collections::VecDeque<bool>>>) {
+        let q = Arc::new(Mutex::new(std::collections::VecDeque::new()));
+        let mut r = AdvReader::new(data, sched);
+        r.seek_events = Some(q.clone());
+        (r, q)
     }
 }
 
@@ -218,18 +231,27 @@ impl AsyncSeek for AdvReader {
         Ok(())
     }
 
+    /// `poll_complete` may return Pending both while a seek is in flight and when none is (the
+    /// source is still busy with an earlier operation, like a tokio `File` with a read in flight):
+    /// callers must cope with Pending from the call they make BEFORE `start_seek`.
     fn poll_complete(mut self: Pin<&mut Self>, cx: &mut Context<'_>) -> Poll<io::Result<u64>> {
-        if self.seek_to.is_none() {
-            return Poll::Ready(Ok(self.pos));
-        }
-        match self.sched.next(K_SEEK) {
+        let step = match &self.seek_events {
+            Some(q) => match q.lock().unwrap().pop_front() {
+                Some(true) => Step::Pending,
+                _ => Step::Xfer(usize::MAX),
+            },
+            None => self.sched.next(K_SEEK),
+        };
+        match step {
             Step::Tripped => Poll::Ready(Err(tripped_err())),
             Step::Pending => {
                 cx.waker().wake_by_ref();
                 Poll::Pending
             }
             Step::Xfer(_) => {
-                self.pos = self.seek_to.take().unwrap();
+                if let Some(t) = self.seek_to.take() {
+                    self.pos = t;
+                }
                 Poll::Ready(Ok(self.pos))
             }
         }
